@@ -438,3 +438,6 @@ func ResourceAbort(reason string) bool {
 	}
 	return false
 }
+
+// CanonValue renders a value with the run's identity map (for property-specific host functions).
+func CanonValue(r *ImplRun, v lua.LValue) string { return r.canonVal(v) }
